@@ -82,8 +82,10 @@ def find_def(qualname: str) -> Tuple[ModuleInfo, ast.AST]:
 
 def class_of(qualname: str):
     modname, local = qualname.split(":")
-    mi = module_info(modname)
-    obj = mi.module
+    if modname.startswith("hypercorn"):
+        obj = module_info(modname).module
+    else:
+        obj = importlib.import_module(modname)
     for part in local.split("."):
         obj = getattr(obj, part)
     return obj
